@@ -30,7 +30,7 @@ def step (toks : List String) : String :=
     | some q =>
       let cfg : Config := { state := parseBits state, slots := parseSlots slots }
       let (cfg', rs) := loopUpdate (genericW q) cfg (RS.ofScript (parseNats script))
-      s!"{showBits cfg'.state} {showSlots cfg'.slots} {rs.verdict}"
+      s!"{showBits cfg'.state} {showSlots cfg'.slots} {rs.verdict} c={showBool (decide (Consistent cfg'))}"
   -- start op / leg / side draw map
   | ["start", slots, script] =>
     let sl := parseSlots slots
@@ -71,7 +71,7 @@ def step (toks : List String) : String :=
   | ["free", state, slots, script] =>
     let cfg : Config := { state := parseBits state, slots := parseSlots slots }
     let (cfg', rs) := flipFreeBits cfg (RS.ofScript (parseNats script))
-    s!"{showBits cfg'.state} {rs.verdict}"
+    s!"{showBits cfg'.state} {rs.verdict} c={showBool (decide (Consistent cfg'))}"
   -- pipeline: which of the optional sub-updates `timestep` runs; `combos` lists the
   -- (loop, cluster) combinations whose composition reproduced `timestep` on the real code
   | ["pipe", doLoop, calls, combos] =>
